@@ -1,3 +1,208 @@
-(* C01 — placeholder while the pipeline is brought up; theorems follow. *)
+(* C01 — Wire codecs round-trip every packet and emit the documented frame layout.
+   This file holds only the property theorems; each is closed by an exact lemma and followed
+   by Print Assumptions.  Model: C01/Model.v (codec/v1_*.go, v2_*.go, marshal.go, codec.go).
+
+   External behaviour enters as universally quantified functions: the cipher pair [enc]/[dec],
+   zlib [zip]/[unzip], constrained only by [codec_env] (dec (enc b) = b, |enc b| = |b|,
+   unzip (zip b) = Some b, zip never returns the empty string); a stream is ANY list of chunks
+   whose concatenation is the bytes on the wire.  [has_c] = a cipher is installed. *)
 From Coq Require Import ZArith NArith List Bool.
-From FV Require Import C01.Model.
+From FV Require Import Lib.NList Lib.BE Lib.Crc32 C01.Model C01.ProofsIO C01.ProofsV1 C01.ProofsV2 C01.Proofs.
+Import ListNotations.
+Open Scope N_scope.
+
+(* "any packet within the format's limits that is encoded and then decoded - with or without
+   compression, with any supported cipher pair - comes back with the same command, sequence
+   number, caller-set flag bits and body bytes ... and the decoder consumes exactly the bytes
+   the encoder produced ... however the stream is chunked"  — V1 *)
+Theorem c01_roundtrip_v1 : forall enc dec zip unzip, codec_env enc dec zip unzip ->
+  forall thr has_c p n ws p' s rest,
+  wf_packet p -> clean_flags p -> body_ok p ->
+  write_v1 enc zip thr has_c p = mkWres (Some n) ws p' ->
+  concat s = concat ws ++ rest ->
+  exists q, r_out (read_packet_v1 dec unzip has_c s packet0) = Ok q
+            /\ concat (r_rest (read_packet_v1 dec unzip has_c s packet0)) = rest
+            /\ same_v1 p q.
+Proof. exact roundtrip_v1_fields. Qed.
+Print Assumptions c01_roundtrip_v1.
+
+(* "(plus type, node and reference list in the server-to-server format)" — V2 *)
+Theorem c01_roundtrip_v2 : forall enc dec zip unzip, codec_env enc dec zip unzip ->
+  forall thr has_c p n ws p' s rest,
+  wf_packet p -> clean_flags p -> body_ok p ->
+  write_v2 enc zip thr has_c p = mkWres (Some n) ws p' ->
+  concat s = concat ws ++ rest ->
+  exists q, r_out (read_packet_v2 dec unzip has_c s packet0) = Ok q
+            /\ concat (r_rest (read_packet_v2 dec unzip has_c s packet0)) = rest
+            /\ same_v2 p q.
+Proof. exact roundtrip_v2_fields. Qed.
+Print Assumptions c01_roundtrip_v2.
+
+(* "so back-to-back frames on one stream decode independently and in order" *)
+Theorem c01_stream_v1 : forall enc dec zip unzip, codec_env enc dec zip unzip ->
+  forall thr has_c ps frames,
+  Forall sendable ps ->
+  Forall2 (fun p f => exists n ws p', write_v1 enc zip thr has_c p = mkWres (Some n) ws p'
+                                      /\ f = concat ws) ps frames ->
+  forall s rest, concat s = concat frames ++ rest ->
+  let res := read_many _ (fun s => read_packet_v1 dec unzip has_c s packet0) (length frames) s in
+  exists qs, fst res = map Ok qs /\ Forall2 same_v1 ps qs /\ concat (snd res) = rest.
+Proof. exact stream_v1. Qed.
+Print Assumptions c01_stream_v1.
+
+Theorem c01_stream_v2 : forall enc dec zip unzip, codec_env enc dec zip unzip ->
+  forall thr has_c ps frames,
+  Forall sendable ps ->
+  Forall2 (fun p f => exists n ws p', write_v2 enc zip thr has_c p = mkWres (Some n) ws p'
+                                      /\ f = concat ws) ps frames ->
+  forall s rest, concat s = concat frames ++ rest ->
+  let res := read_many _ (fun s => read_packet_v2 dec unzip has_c s packet0) (length frames) s in
+  exists qs, fst res = map Ok qs /\ Forall2 same_v2 ps qs /\ concat (snd res) = rest.
+Proof. exact stream_v2. Qed.
+Print Assumptions c01_stream_v2.
+
+(* "however the stream is chunked": for ANY input (valid or not) result, bytes left, buffers
+   allocated and bytes requested depend only on the concatenation of the chunks *)
+Theorem c01_chunking_v1 : forall dec unzip has_dec p0 s1 s2, concat s1 = concat s2 ->
+  rhb_same (read_packet_v1 dec unzip has_dec s1 p0) (read_packet_v1 dec unzip has_dec s2 p0).
+Proof. exact read_packet_v1_chunking. Qed.
+Print Assumptions c01_chunking_v1.
+
+Theorem c01_chunking_v2 : forall dec unzip has_dec p0 s1 s2, concat s1 = concat s2 ->
+  rhb_same (read_packet_v2 dec unzip has_dec s1 p0) (read_packet_v2 dec unzip has_dec s2 p0).
+Proof. exact read_packet_v2_chunking. Qed.
+Print Assumptions c01_chunking_v2.
+
+(* "The encoder lays the fields out as the protocol description says (big-endian length
+   covering header and body, checksum over header, references and body)" *)
+Theorem c01_layout_v1 : forall enc zip thr has_c p n ws p',
+  p_flag p < 256 -> clean_flags p ->
+  write_v1 enc zip thr has_c p = mkWres (Some n) ws p' ->
+  let b := fst (marshal_body enc zip thr has_c p) in
+  let head := be16 n ++ [u8_of_z (p_typ p); p_flag p'] ++ be16 (p_seq p) ++ be32 (u32_of_z (p_cmd p)) in
+  concat ws = head ++ be32 (crc32 (head ++ b)) ++ b /\ n = lenN (concat ws) /\ n = 14 + lenN b.
+Proof. exact layout_v1. Qed.
+Print Assumptions c01_layout_v1.
+
+Theorem c01_layout_v2 : forall enc zip thr has_c p n ws p',
+  p_flag p < 256 -> clean_flags p ->
+  write_v2 enc zip thr has_c p = mkWres (Some n) ws p' ->
+  let b := fst (marshal_body enc zip thr has_c p) in
+  let nref := lenN (p_refers p) in
+  let head := be24 n ++ [u8_of_z (p_typ p); p_flag p'; nref] ++ be16 (p_seq p)
+              ++ be32 (p_node p) ++ be32 (u32_of_z (p_cmd p)) in
+  concat ws = head ++ be32 (crc32 (head ++ be32s (p_refers p) ++ b)) ++ be32s (p_refers p) ++ b
+  /\ n = lenN (concat ws) /\ n = 20 + 4 * nref + lenN b /\ nref <= 255.
+Proof. exact layout_v2. Qed.
+Print Assumptions c01_layout_v2.
+
+(* "reports the exact number of bytes it wrote" — for every packet, no side condition *)
+Theorem c01_reported_size_v1 : forall enc zip thr has_c p n,
+  w_ret (write_v1 enc zip thr has_c p) = Some n ->
+  n = lenN (concat (w_writes (write_v1 enc zip thr has_c p))).
+Proof. exact write_v1_size. Qed.
+Print Assumptions c01_reported_size_v1.
+
+Theorem c01_reported_size_v2 : forall enc zip thr has_c p n,
+  w_ret (write_v2 enc zip thr has_c p) = Some n ->
+  n = lenN (concat (w_writes (write_v2 enc zip thr has_c p))).
+Proof. exact write_v2_size. Qed.
+Print Assumptions c01_reported_size_v2.
+
+(* "leaves the caller's command, sequence number, type, node and references untouched (of the
+   header only the compression/encryption flag bits are set)" — success or error *)
+Theorem c01_caller_fields_v1 : forall enc zip thr has_c p,
+  p_flag p < 256 -> only_flag_bits p (w_pkt (write_v1 enc zip thr has_c p)).
+Proof. exact write_v1_caller. Qed.
+Print Assumptions c01_caller_fields_v1.
+
+Theorem c01_caller_fields_v2 : forall enc zip thr has_c p,
+  p_flag p < 256 -> only_flag_bits p (w_pkt (write_v2 enc zip thr has_c p)).
+Proof. exact write_v2_caller. Qed.
+Print Assumptions c01_caller_fields_v2.
+
+(* "when a packet exceeds a limit (frame size, reference count) it returns an error without
+   emitting a single byte" *)
+Theorem c01_limit_no_bytes_v1 : forall enc zip thr has_c p,
+  w_ret (write_v1 enc zip thr has_c p) = None -> w_writes (write_v1 enc zip thr has_c p) = [].
+Proof. exact write_v1_error_no_bytes. Qed.
+Print Assumptions c01_limit_no_bytes_v1.
+
+Theorem c01_limit_no_bytes_v2 : forall enc zip thr has_c p,
+  w_ret (write_v2 enc zip thr has_c p) = None -> w_writes (write_v2 enc zip thr has_c p) = [].
+Proof. exact write_v2_error_no_bytes. Qed.
+Print Assumptions c01_limit_no_bytes_v2.
+
+(* exactly the packets beyond a limit are refused *)
+Theorem c01_within_limit_ok_v1 : forall enc zip thr has_c p,
+  let b := fst (marshal_body enc zip thr has_c p) in
+  (max1 < hs1 + lenN b -> w_ret (write_v1 enc zip thr has_c p) = None)
+  /\ (hs1 + lenN b <= max1 -> w_ret (write_v1 enc zip thr has_c p) = Some (hs1 + lenN b)).
+Proof. exact write_v1_limit. Qed.
+Print Assumptions c01_within_limit_ok_v1.
+
+Theorem c01_within_limit_ok_v2 : forall enc zip thr has_c p,
+  let b := fst (marshal_body enc zip thr has_c p) in
+  let size := hs2 + lenN (p_refers p) * 4 + lenN b in
+  (255 < lenN (p_refers p) \/ max2 < size -> w_ret (write_v2 enc zip thr has_c p) = None)
+  /\ (lenN (p_refers p) <= 255 -> size <= max2 -> w_ret (write_v2 enc zip thr has_c p) = Some size).
+Proof. exact write_v2_limit. Qed.
+Print Assumptions c01_within_limit_ok_v2.
+
+(* the length-prefixed helper (codec.WriteLenData / ReadLenData) *)
+Theorem c01_lendata_roundtrip : forall d n ws s rest,
+  write_len_data d = (Some n, ws) -> concat s = concat ws ++ rest ->
+  r_out (read_len_data s) = Ok d /\ concat (r_rest (read_len_data s)) = rest
+  /\ r_reads (read_len_data s) = [2; lenN d].
+Proof. exact lendata_roundtrip. Qed.
+Print Assumptions c01_lendata_roundtrip.
+
+Theorem c01_lendata_size : forall d n ws, write_len_data d = (Some n, ws) ->
+  n = lenN (concat ws) /\ concat ws = be16 (lenN d + 2) ++ d /\ lenN d + 2 < 65535.
+Proof. exact lendata_size. Qed.
+Print Assumptions c01_lendata_size.
+
+Theorem c01_lendata_limit : forall d,
+  (65533 <= lenN d -> write_len_data d = (None, []))
+  /\ (lenN d < 65533 -> fst (write_len_data d) = Some (lenN d + 2)).
+Proof. exact lendata_limit. Qed.
+Print Assumptions c01_lendata_limit.
+
+(* ---------------------------------------------------------------------------------- *)
+(* non-vacuity: an environment meeting [codec_env] (xor cipher, a toy "zlib" that prefixes a
+   marker byte), a non-trivial packet meeting [sendable], and the model computing on it:
+   the V2 frame of a 5-byte body with two references, compressed (threshold 3) and
+   encrypted, read back through 1-byte chunks. *)
+Definition ex_enc (b : bytes) : bytes := map (fun x => N.lxor x 90) b.
+Definition ex_zip (b : bytes) : bytes := 120 :: b.
+Definition ex_unzip (b : bytes) : option bytes := match b with 120 :: r => Some r | _ => None end.
+
+Example c01_env_example : codec_env ex_enc ex_enc ex_zip ex_unzip.
+Proof.
+  constructor; intros b; unfold ex_enc, ex_zip, ex_unzip.
+  - rewrite map_map. rewrite <- (map_id b) at 2. apply map_ext. intros x.
+    rewrite N.lxor_assoc, N.lxor_nilpotent. apply N.lxor_0_r.
+  - apply lenN_map.
+  - reflexivity.
+  - rewrite lenN_cons. destruct (lenN b); reflexivity.
+Qed.
+
+Definition ex_packet : packet :=
+  mkPacket (-7)%Z 513 32 1%Z 16909060 [1; 4294967295] (BBytes [104; 101; 108; 108; 111]).
+
+Example c01_packet_example :
+  sendable ex_packet
+  /\ exists n ws p', write_v2 ex_enc ex_zip 3 true ex_packet = mkWres (Some n) ws p'
+     /\ n = 34 /\ p_flag p' = 35
+     /\ r_out (read_packet_v2 ex_enc ex_unzip true (map (fun x => [x]) (concat ws)) packet0)
+        = Ok (mkPacket (-7)%Z 513 32 1%Z 16909060 [1; 4294967295] (BBytes [104; 101; 108; 108; 111])).
+Proof.
+  split.
+  - split; [|split].
+    + constructor; cbn; try (split; [discriminate|reflexivity]); try reflexivity.
+      repeat constructor.
+    + reflexivity.
+    + intros H. exfalso. apply H. reflexivity.
+  - eexists _, _, _. split; [vm_compute; reflexivity|]. split; [reflexivity|]. split; [reflexivity|].
+    vm_compute. reflexivity.
+Qed.
